@@ -1,7 +1,7 @@
 (* Proofs about the request-limit model (C16). *)
 From Coq Require Import ZArith List Bool Lia ZifyBool.
 Import ListNotations.
-From MP Require Import Grid Grid_proofs Limits.
+From MP Require Import Grid Grid_proofs Limits Gen_wmts_parse.
 Local Open Scope Z_scope.
 
 (* ---- vocabulary of the statements *)
@@ -35,7 +35,12 @@ Definition layer_wf (ly : layer) : Prop := 1 <= lmx ly /\ 1 <= lmy ly.
 Definition effect_inside (ly : layer) (e : effect) : Prop :=
   match e with
   | ERead c | EProbe c | EStore c => valid_coord (lg ly) c
-  | EUp b w h => exists m, valid_coord (lg ly) m /\ b = meta_bbox ly m /\ (w, h) = meta_px ly m
+  | EUp b w h =>
+    (* the meta tile of a tile of the grid, or (minimize_meta_requests) the block spanned by two tiles of the grid *)
+    (exists m, valid_coord (lg ly) m /\ b = meta_bbox ly m /\ (w, h) = meta_px ly m) \/
+    (exists x0 y0 x1 y1 l, valid_coord (lg ly) (x0, y0, l) /\ valid_coord (lg ly) (x1, y1, l) /\
+       b = merge_bbox (tile_bbox (lg ly) x0 y0 l) (tile_bbox (lg ly) x1 y1 l) /\
+       w = (x1 - x0 + 1) * tw (lg ly) /\ h = (y1 - y0 + 1) * th (lg ly))
   | EInfo b _ _ => exists x y l, valid_coord (lg ly) (x, y, l) /\ b = tile_bbox (lg ly) x y l
   end.
 
@@ -282,20 +287,79 @@ Proof.
   intros Hv. unfold create_meta. destruct (meta_px ly m) as [w h] eqn:Ep.
   rewrite !in_app_iff. intros [H|[H|H]].
   - apply in_map_iff in H. destruct H as (c & <- & Hc). apply somes_In in Hc. eapply meta_members_valid; eauto.
-  - destruct H as [<-|[]]. exists m. repeat split; auto.
+  - destruct H as [<-|[]]. left. exists m. repeat split; auto.
   - apply in_map_iff in H. destruct H as (c & <- & Hc). apply somes_In in Hc. eapply meta_members_valid; eauto.
 Qed.
 
-Lemma load_inside ly cached cs e :
-  layer_wf ly -> (forall c, In (Some c) cs -> valid_coord (lg ly) c) ->
+Lemma fold_min_range a l lo hi :
+  lo <= a <= hi -> (forall v, In v l -> lo <= v <= hi) -> lo <= fold_right Z.min a l <= hi.
+Proof.
+  intros Ha. induction l as [|v r IH]; intros H; cbn [fold_right]; [exact Ha|].
+  assert (lo <= v <= hi) by (apply H; left; reflexivity).
+  assert (lo <= fold_right Z.min a r <= hi) by (apply IH; intros; apply H; right; assumption). lia.
+Qed.
+Lemma fold_max_range a l lo hi :
+  lo <= a <= hi -> (forall v, In v l -> lo <= v <= hi) -> lo <= fold_right Z.max a l <= hi.
+Proof.
+  intros Ha. induction l as [|v r IH]; intros H; cbn [fold_right]; [exact Ha|].
+  assert (lo <= v <= hi) by (apply H; left; reflexivity).
+  assert (lo <= fold_right Z.max a r <= hi) by (apply IH; intros; apply H; right; assumption). lia.
+Qed.
+Lemma fold_min_le_max a l : fold_right Z.min a l <= a <= fold_right Z.max a l.
+Proof. induction l as [|v r IH]; cbn [fold_right]; lia. Qed.
+
+(* minimize_meta_requests: the block spanned by missing tiles of one level of the grid lies inside the grid *)
+Lemma minimal_meta_inside ly missing l e :
+  (forall c, In c missing -> valid_coord (lg ly) c /\ cl c = l) ->
+  In e (minimal_meta ly missing) -> effect_inside ly e.
+Proof.
+  intros Hm. unfold minimal_meta. destruct (rev missing) as [|c0 r] eqn:Er; [intros []|].
+  assert (Hc0 : In c0 missing) by (apply in_rev; rewrite Er; left; reflexivity).
+  destruct (Hm c0 Hc0) as [Hv0 Hl0]. rewrite Hl0.
+  set (nx := fst (grid_size (lg ly) l)). set (ny := snd (grid_size (lg ly) l)).
+  assert (Hall : forall c, In c missing -> valid_level (lg ly) l = true /\ 0 <= cx c < nx /\ 0 <= cy c < ny).
+  { intros [[x y] l'] Hc. destruct (Hm _ Hc) as [Hv Hl]. cbn [cl snd] in Hl. subst l'.
+    apply valid_coord_iff in Hv. exact Hv. }
+  destruct (Hall c0 Hc0) as (Hlv & Hx0 & Hy0).
+  set (minx := fold_right Z.min (cx c0) (map cx missing)). set (maxx := fold_right Z.max (cx c0) (map cx missing)).
+  set (miny := fold_right Z.min (cy c0) (map cy missing)). set (maxy := fold_right Z.max (cy c0) (map cy missing)).
+  assert (Hxs : forall v, In v (map cx missing) -> 0 <= v <= nx - 1).
+  { intros v Hv. apply in_map_iff in Hv. destruct Hv as (c & <- & Hc). destruct (Hall c Hc) as (_ & ? & _). lia. }
+  assert (Hys : forall v, In v (map cy missing) -> 0 <= v <= ny - 1).
+  { intros v Hv. apply in_map_iff in Hv. destruct Hv as (c & <- & Hc). destruct (Hall c Hc) as (_ & _ & ?). lia. }
+  assert (Hminx : 0 <= minx <= nx - 1) by (apply fold_min_range; [lia|exact Hxs]).
+  assert (Hmaxx : 0 <= maxx <= nx - 1) by (apply fold_max_range; [lia|exact Hxs]).
+  assert (Hminy : 0 <= miny <= ny - 1) by (apply fold_min_range; [lia|exact Hys]).
+  assert (Hmaxy : 0 <= maxy <= ny - 1) by (apply fold_max_range; [lia|exact Hys]).
+  assert (Hmem : forall c, In (Some c)
+            (create_tile_list (zrange minx maxx) (if ul (lg ly) then zrange miny maxy else rev (zrange miny maxy)) l
+                              (maxx + 1, maxy + 1)) -> valid_coord (lg ly) c).
+  { intros c Hc. apply create_tile_list_In in Hc. destruct Hc as (x & y & Hx & Hy & He). cbn [fst snd] in He.
+    apply zrange_In in Hx.
+    assert (Hy' : miny <= y <= maxy).
+    { destruct (ul (lg ly)); [apply zrange_In in Hy; exact Hy|apply in_rev in Hy; apply zrange_In in Hy; exact Hy]. }
+    unfold tile_or_none in He. destruct ((x <? 0) || (y <? 0) || (maxx + 1 <=? x) || (maxy + 1 <=? y)); [discriminate|].
+    inversion He; subst c. apply valid_coord_iff. fold nx ny. repeat split; try exact Hlv; lia. }
+  rewrite !in_app_iff. intros [H|[H|H]].
+  - apply in_map_iff in H. destruct H as (c & <- & Hc). apply somes_In in Hc. apply Hmem. exact Hc.
+  - destruct H as [<-|[]]. right. exists minx, miny, maxx, maxy, l. repeat split; try reflexivity;
+      apply valid_coord_iff; fold nx ny; repeat split; try exact Hlv; lia.
+  - apply in_map_iff in H. destruct H as (c & <- & Hc). apply somes_In in Hc. apply Hmem. exact Hc.
+Qed.
+
+Lemma load_inside ly cached cs l e :
+  layer_wf ly -> (forall c, In (Some c) cs -> valid_coord (lg ly) c /\ cl c = l) ->
   In e (load_tile_coords ly cached cs) -> effect_inside ly e.
 Proof.
   intros Hwf Hcs. unfold load_tile_coords. rewrite !in_app_iff. intros [H|[H|H]].
   - apply in_map_iff in H. destruct H as (c & <- & Hc). apply Hcs. apply somes_In. exact Hc.
   - apply in_map_iff in H. destruct H as (c & <- & Hc). apply Hcs. apply somes_In. exact Hc.
-  - apply in_flat_map in H. destruct H as (m & Hm & He). apply dedup_In in Hm.
-    apply in_map_iff in Hm. destruct Hm as (c & <- & Hc). apply filter_In in Hc. destruct Hc as [Hc _].
-    eapply create_meta_inside; [|exact He]. apply main_tile_valid; [exact Hwf|]. apply Hcs. apply somes_In. exact Hc.
+  - destruct (has_meta_grid ly && lminimize ly && (1 <? Z.of_nat (length (filter _ (somes cs))))).
+    + eapply (minimal_meta_inside ly _ l); [|exact H]. intros c Hc. apply filter_In in Hc. destruct Hc as [Hc _].
+      apply Hcs. apply somes_In. exact Hc.
+    + apply in_flat_map in H. destruct H as (m & Hm & He). apply dedup_In in Hm.
+      apply in_map_iff in Hm. destruct Hm as (c & <- & Hc). apply filter_In in Hc. destruct Hc as [Hc _].
+      eapply create_meta_inside; [|exact He]. apply main_tile_valid; [exact Hwf|]. apply Hcs. apply somes_In. exact Hc.
 Qed.
 
 Lemma render_inside ly cached up o f d x y z e :
@@ -303,8 +367,8 @@ Lemma render_inside ly cached up o f d x y z e :
 Proof.
   intros Hwf. unfold render. destruct (negb (f =? offered_format ly)); [intros []|].
   destruct (request_tile_coord ly up o x y z) as [c|] eqn:E; [|intros []].
-  destruct (negb (dimensions_ok ly d)); [intros []|]. cbn [snd]. apply load_inside; [exact Hwf|].
-  intros c' [Hc|[]]. inversion Hc; subst c'.
+  destruct (negb (dimensions_ok ly d)); [intros []|]. cbn [snd]. apply (load_inside ly cached _ (cl c)); [exact Hwf|].
+  intros c' [Hc|[]]. inversion Hc; subst c'. split; [|reflexivity].
   pose proof (request_some_inv _ _ _ _ _ _ _ E) as Him.
   destruct (request_some ly up o x y z Him) as (c2 & E2 & Hv). assert (c2 = c) by congruence. subst c2. exact Hv.
 Qed.
@@ -389,10 +453,11 @@ Proof.
   destruct (over_tile_limit ly (nx * ny)); [intros []|].
   destruct (mtiled q && (1 <? nx * ny)); [intros []|].
   destruct (mtiled q && negb (tiled_aligned q src)); [intros []|]. cbn [snd].
-  apply load_inside; [exact Hwf|]. intros c Hc.
+  apply (load_inside ly cached _ l); [exact Hwf|]. intros c Hc.
   pose proof (affected_level_valid _ _ _ _ _ Hne El) as Hv.
-  destruct (affected_tiles_valid _ _ _ _ _ _ _ Hv Ea) as [_ H2]. specialize (H2 c Hc).
-  destruct c as [[x y] l']. exact H2.
+  destruct (affected_tiles_valid _ _ _ _ _ _ _ Hv Ea) as [H1 H2]. specialize (H2 c Hc).
+  destruct (H1 _ Hc) as (x0 & y0 & _ & _ & He). symmetry in He. apply limit_tile_some in He. destruct He as (-> & _).
+  split; [exact H2|reflexivity].
 Qed.
 
 Lemma cache_image_over_limit ly cached q n m :
@@ -452,6 +517,13 @@ Proof.
   rewrite Hq. rewrite (cache_image_over_limit ly cached q' n m Hn Hm Hle). eauto.
 Qed.
 
+Lemma serve_direct_pixel_limit se q m :
+  0 < m < mw q * mh q -> serve_direct (Some m) se q = (Err TooLarge, []).
+Proof.
+  intros H. unfold serve_direct, over_pixel_limit.
+  replace (negb (m =? 0) && (m <? mw q * mh q)) with true by (symmetry; lia). reflexivity.
+Qed.
+
 (* a layer on a mixed cache offers png only *)
 Lemma serve_tile_invalid_format_mixed ly cached q f :
   lmixed ly = true -> is_fi (rsvc q) = false -> rfmt q = Some f -> f <> fmt_png ->
@@ -485,9 +557,32 @@ Proof.
   repeat split; try (apply Hin; lia); apply Hout; lia.
 Qed.
 
+(* ---- how the code parses the address components (Gen_wmts_parse.v is extracted from request/wmts.py and
+   request/tile.py on every run) is what serve_tile assumes:
+   KVP: Python int() of TILECOL / TILEROW / TILEMATRIX - a component that is not a decimal integer (None in the
+        model) ends in the uncaught ValueError (Err Internal), nothing else can become a level;
+   REST: TileMatrix matches [0-9]+ only (a negative or non-numeric level never reaches the service: Err BadRequest),
+        TileRow / TileCol match -?[0-9]+;  TMS / tiles / KML: z, x, y match -?[0-9]+ (else Err BadRequest) *)
+Lemma address_parsers :
+  kvp_level_parser = PyInt /\ kvp_row_parser = PyInt /\ kvp_col_parser = PyInt /\
+  rest_level_parser = Digits /\ rest_row_parser = SignedDigits /\ rest_col_parser = SignedDigits /\
+  tms_level_parser = SignedDigits /\ tms_row_parser = SignedDigits /\ tms_col_parser = SignedDigits.
+Proof. repeat split; reflexivity. Qed.
+
+(* the model's side of it: a KVP request with a non-numeric component is the internal error without effects, a REST
+   request with a negative or non-numeric level and a TMS request with a non-numeric component are bad requests *)
+Lemma non_numeric_component_refused ly cached q :
+  rx q = None \/ ry q = None \/ rz q = None \/ (is_wmts (rsvc q) = true /\ rsvc q <> WmtsKvp /\ rsvc q <> WmtsKvpFI /\ exists z, rz q = Some z /\ z < 0) ->
+  exists e, serve_tile ly cached q = (Err e, []).
+Proof.
+  intros H. apply serve_tile_invalid_address. intros x y z Hx Hy Hz.
+  destruct H as [H|[H|[H|(Hw & Hk & Hkf & z' & Hz' & Hneg)]]]; try congruence.
+  assert (z' = z) by congruence. subst z'. intros [Hz0 _]. lia.
+Qed.
+
 (* ---- non-vacuity: a concrete layer (3 levels, 5 x 3 tiles at the finest level, 2 x 2 meta tiles, one dimension) *)
 Definition ex_grid : grid := mkGrid 0 0 5120 2560 64 64 [40; 20; 10] false 23 20 4 1.
-Definition ex_layer : layer := mkLayer ex_grid 1 [(1, ([2; 3], 2))] 2 2 false false true (Some 4) false.
+Definition ex_layer : layer := mkLayer ex_grid 1 [(1, ([2; 3], 2))] 2 2 false false true (Some 4) false false.
 Definition ex_req (s : svc) (x y z : Z) : treq := mkReq s (Some x) (Some y) (Some z) (Some 1) None [] true true true 3 4.
 
 Example ex_layer_wf : layer_wf ex_layer /\ ress (lg ex_layer) <> [].
@@ -530,7 +625,7 @@ Proof. vm_compute. reflexivity. Qed.
 (* a grid whose levels shrink by sqrt2 (every second level hidden from TMS / KML): WMTS TileMatrix 3 is level 3 of
    the grid (4 x 2 tiles: column 3 is the last one), TMS level 1 is level 2 (3 x 2 tiles), TMS level 2 does not exist *)
 Definition ex_sqrt2_grid : grid := mkGrid 0 0 5120 2560 64 64 [40; 28; 20; 14] true 23 20 4 1.
-Definition ex_sqrt2_layer : layer := mkLayer ex_sqrt2_grid 1 [] 1 1 false true true None false.
+Definition ex_sqrt2_layer : layer := mkLayer ex_sqrt2_grid 1 [] 1 1 false true true None false false.
 Example ex_sqrt2_levels :
   grid_sizes ex_sqrt2_grid = [(2, 1); (3, 2); (4, 2); (6, 3)] /\
   serve_tile ex_sqrt2_layer [] (ex_req WmtsRest 5 2 3) =
@@ -566,7 +661,7 @@ Example ex_clip :
 Proof. vm_compute. reflexivity. Qed.
 
 (* a layer on a mixed cache (cache format id 3): png is served, jpeg and "mixed" itself are refused *)
-Definition ex_mixed_layer : layer := mkLayer ex_grid 3 [] 1 1 false false true None true.
+Definition ex_mixed_layer : layer := mkLayer ex_grid 3 [] 1 1 false false true None true false.
 Example ex_mixed :
   fst (serve_tile ex_mixed_layer [] (ex_req KML 0 0 0)) = Ok /\
   serve_tile ex_mixed_layer [] (mkReq KML (Some 0) (Some 0) (Some 0) (Some 2) None [] true true true 0 0) = (Err InvalidFormat, []) /\
@@ -581,6 +676,19 @@ Example ex_srs_extent :
   srs_limited (Some (1000, 500, 3000, 2000)) (mkMap (0, 0, 2000, 1000) 100 50 1 true) = Some (mkMap (1000, 500, 2000, 1000) 50 25 1 false) /\
   srs_limited (Some (1000, 500, 3000, 2000)) (mkMap (4000, 0, 5000, 1000) 100 50 1 false) = None /\
   serve_map (Some 10000) (Some (1000, 500, 3000, 2000)) ex_layer [] (mkMap (-9000, -9500, 1100, 600) 100 100 1 false) = (Err Internal, []).
+Proof. vm_compute. repeat split; reflexivity. Qed.
+
+(* minimize_meta_requests: the three missing tiles of a 3 x 1 request are fetched with one upstream request for
+   the block they span (192 x 64 pixels) and all three are stored; with the tile limit 3 the request is refused *)
+Definition ex_min_layer (limit : option Z) : layer := mkLayer ex_grid 1 [] 2 2 false false true limit false true.
+Example ex_minimize :
+  serve_map None None (ex_min_layer None) [] ex_map3 =
+    (Ok, [ERead (0, 0, 2); ERead (1, 0, 2); ERead (2, 0, 2); EProbe (0, 0, 2); EProbe (1, 0, 2); EProbe (2, 0, 2);
+          EProbe (0, 0, 2); EProbe (1, 0, 2); EProbe (2, 0, 2); EUp (0, 0, 1920, 640) 192 64;
+          EStore (0, 0, 2); EStore (1, 0, 2); EStore (2, 0, 2)]) /\
+  serve_map None None (ex_min_layer (Some 3)) [] ex_map3 = (Err TooManyTiles, []) /\
+  serve_direct (Some 10000) None (mkMap (0, 0, 3000, 3000) 101 100 1 true) = (Err TooLarge, []) /\
+  serve_direct (Some 10000) None (mkMap (0, 0, 3000, 3000) 100 100 1 true) = (Ok, [EUp (0, 0, 3000, 3000) 100 100]).
 Proof. vm_compute. repeat split; reflexivity. Qed.
 
 (* WMTS GetFeatureInfo does not compare FORMAT with the layer format (behaviour pinned by the test-suite of mapproxy):
